@@ -117,6 +117,17 @@ EXPORT errno_t _memcmp32_s_chk(const uint32_t *dest, rsize_t dlen,
         return (RCNEGATE(ESZEROL));
     }
 
+    /* the element counts first: dlen * 4 and slen * 4 below must not wrap */
+    if (unlikely(dlen > RSIZE_MAX_MEM32)) {
+        invoke_safe_mem_constraint_handler("memcmp32_s: dlen exceeds max",
+                                           (void *)dest, ESLEMAX);
+        return (RCNEGATE(ESLEMAX));
+    }
+    if (unlikely(slen > RSIZE_MAX_MEM32)) {
+        invoke_safe_mem_constraint_handler("memcmp32_s: slen exceeds max",
+                                           (void *)src, ESLEMAX);
+        return (RCNEGATE(ESLEMAX));
+    }
     smax = slen * 4;
     dmax = dlen * 4;
 
